@@ -11,7 +11,9 @@ macro_rules! f16 {
             crate::assume!(s, K >= 16 || (x >> 12) as u32 == K);
             let got = P16E1::from_bits(x).$method().to_bits();
             cover!(x & 1 == 1);
-            Outcome::eq(got as u64, t::$tab[x as usize] as u64)
+            // index only the slice's 4096 entries (a 4096-way instead of a 65536-way selection for the solver)
+            let want = if K < 16 { t::$tab[(K as usize) << 12 | (x & 0xfff) as usize] } else { t::$tab[x as usize] };
+            Outcome::eq(got as u64, want as u64)
         }
     };
 }
